@@ -775,10 +775,12 @@ func runC07(c *core.Ctx) {
 				}
 			}
 			wakes := false
-			for _, e := range g.Graph().Events {
-				if e.Kind == core.EvCall && e.Call != nil && len(e.Call.Args) == 1 {
-					if b, ok := core.Callee(g.Info(), e.Call).(*types.Builtin); ok && b.Name() == "close" && mentionsField(g.Info(), e.Call.Args[0], chF) {
-						wakes = true
+			for _, h := range withLocalHelpers(c.P, g) { // the signalling may live in an unexported helper
+				for _, e := range h.Graph().Events {
+					if (e.Kind == core.EvCall || e.Kind == core.EvDeferred) && e.Call != nil && len(e.Call.Args) == 1 {
+						if b, ok := core.Callee(h.Info(), e.Call).(*types.Builtin); ok && b.Name() == "close" && mentionsField(h.Info(), e.Call.Args[0], chF) {
+							wakes = true
+						}
 					}
 				}
 			}
